@@ -59,6 +59,7 @@ type EvalCtx struct {
 	depth int
 	// when evaluating at a return site
 	atReturn bool
+	loopPre  *State // pre-state of the innermost enclosing loop (for atentry())
 }
 
 func (e *Enc) evalCtx(fr *Frame, st *State) *EvalCtx {
